@@ -94,3 +94,39 @@ Proof.
   - exact connect_rejects_nonnumber.
 Qed.
 Print Assumptions connect_parse_rejects.
+
+(* The timeout header over the life of a header map that is used for several
+   calls (a *connect.Request sent again; a stream created some time before its
+   first Send). [call_header] is built from three facts the translator extracts
+   from the two clients' NewConn and from duplexHTTPCall.ensureRequestMade on
+   every run. *)
+
+(* what a call announces depends on that call alone, whatever earlier calls left
+   in the header map *)
+Theorem timeout_header_reuse_independent : forall cs h,
+  run_calls h cs = map (call_header None) cs.
+Proof. exact reuse_independent_lemma. Qed.
+Print Assumptions timeout_header_reuse_independent.
+
+(* "without a client deadline the handler's context has none": no header goes out *)
+Theorem no_deadline_no_timeout_header : forall h c,
+  c_deadline c = None -> call_header h c = None.
+Proof. exact no_deadline_no_header_lemma. Qed.
+Print Assumptions no_deadline_no_timeout_header.
+
+(* the value is the encoding (grpc_encode_sound / connect_encode_sound above) of
+   the time remaining when the request LEAVES, not when the stream was created *)
+Theorem timeout_header_is_remaining_at_send : forall h c dl,
+  c_deadline c = Some dl ->
+  call_header h c = encode_remaining (c_grpc c) (dl - c_sent_at c).
+Proof. exact header_is_remaining_at_send_lemma. Qed.
+Print Assumptions timeout_header_is_remaining_at_send.
+
+(* "a remaining time too large to express is sent as no timeout" — also when an
+   earlier call left a value in the map *)
+Theorem inexpressible_sent_as_no_timeout : forall h c dl,
+  c_grpc c = false -> c_deadline c = Some dl ->
+  connect_encode_timeout (dl - c_sent_at c) = None ->
+  call_header h c = None.
+Proof. exact inexpressible_sent_as_none_lemma. Qed.
+Print Assumptions inexpressible_sent_as_no_timeout.
